@@ -1,5 +1,8 @@
 /- helper lemmas: invariants of the pool LTS and of the accept-loop LTS -/
 import TinyHttpModel.Lts.Pool
 import TinyHttpModel.Lts.Server
-namespace TH.Lts.Pool
-end TH.Lts.Pool
+import TinyHttpModel.Lemmas.PoolInvBase
+import TinyHttpModel.Lemmas.PoolInvWait
+import TinyHttpModel.Lemmas.PoolInvTasks
+import TinyHttpModel.Lemmas.PoolInvActive
+import TinyHttpModel.Lemmas.PoolInvServer
